@@ -38,9 +38,11 @@ def XEv.str (x : XEv) : String :=
   let o := if x.inst == "" then x.obj else s!"{x.obj}@{x.inst}"
   s!"{x.kind} {o} {x.op} {x.a1} {x.a2} -> {x.res} flag={x.flag} {x.ord}"
 
+/-- `"*"` in an operand position matches anything (used only for a stale word whose block has been freed: its
+    address may have been reused, so the trace may print it under another block's token) -/
 def XEv.matches (x : XEv) (e : Event) : Bool :=
-  x.kind == e.kind && x.obj == e.obj && x.inst == e.inst && x.op == e.op && x.a1 == e.a1.str &&
-  (x.kind == "ret" || x.a2 == e.a2.str) && x.res == e.res.str && x.flag == e.flag && x.ord == e.ord
+  x.kind == e.kind && x.obj == e.obj && x.inst == e.inst && x.op == e.op && (x.a1 == "*" || x.a1 == e.a1.str) &&
+  (x.kind == "ret" || x.a2 == "*" || x.a2 == e.a2.str) && x.res == e.res.str && x.flag == e.flag && x.ord == e.ord
 
 def tokOf (r : RSt) (b : Nat) : String :=
   match r.toks.find? (·.1 == b) with
@@ -102,7 +104,9 @@ def expect (r : RSt) (pc : Pc) (e : Env) : Option (List XEv) :=
   | .pCas _ w, e =>
       let ok := s.tail = w
       let exp := if ok || e != .aba then w else { s.tail with closing := false }
-      some [{ obj := "mq.mpsc.BlockPtr.0", inst := "0", op := "cas", a1 := wstr r exp, a2 := wstr r (nextWord s.B exp),
+      let stale := !ok && e != .aba && !s.live w.blk
+      some [{ obj := "mq.mpsc.BlockPtr.0", inst := "0", op := "cas", a1 := if stale then "*" else wstr r exp,
+              a2 := if stale then "*" else wstr r (nextWord s.B exp),
               res := wstr r s.tail, flag := if ok || e == .aba then 1 else 0, ord := "AcqRel" }]
   | .pSet _ b i, _ => some [{ obj := "mq.mpsc.ready", inst := s!"{tokOf r b}[{i}]", op := "store", a1 := "1", ord := "Release" }]
   | .pWait b _, _ => some [nextEv r b]
